@@ -639,8 +639,12 @@ fn check_conservation(rec: &mut Recorder, a0: &A2lFile, b0: &A2lFile, r: &A2lFil
 
 /// R's group/function equals A's except that its member lists may have gained entries at the end
 fn only_gained_members(kind: &str, name: &str, ma: &Module, mr: &Module) -> bool {
+    // a union, not a concatenation: behind A's entries only entries that A's list does not have, each once
     fn prefix(a: &[String], r: &[String]) -> bool {
-        r.len() >= a.len() && r[..a.len()] == *a
+        r.len() >= a.len() && r[..a.len()] == *a && {
+            let tail = &r[a.len()..];
+            tail.iter().enumerate().all(|(i, x)| !a.contains(x) && !tail[..i].contains(x))
+        }
     }
     macro_rules! lists_ok {
         ($x:expr, $y:expr, $($field:ident . $list:ident),*) => {{
